@@ -1,10 +1,12 @@
 mod engine;
+mod domsim;
 mod env;
 mod iosim;
 mod orch;
 mod panic;
 mod prng;
 mod sched;
+mod schedsim;
 mod spec;
 mod worker;
 
@@ -16,6 +18,15 @@ static ALLOC: env::CountingAlloc = env::CountingAlloc;
 pub fn make_engine(name: &str) -> Box<dyn engine::Engine> {
     match name {
         "iosim" => Box::new(iosim::IoSim::new()),
+        "schedsim" => Box::new(schedsim::SchedSim::new()),
+        "domsim" => Box::new(domsim::DomSim::new()),
+        "domsim+schedsim" => Box::new(engine::Composite {
+            name: "domsim+schedsim",
+            parts: vec![
+                (Box::new(domsim::DomSim::new()) as Box<dyn engine::Engine>, 3),
+                (Box::new(schedsim::SchedSim::new()) as Box<dyn engine::Engine>, 1),
+            ],
+        }),
         other => {
             eprintln!("rbxsim: unknown engine {}", other);
             std::process::exit(2);
@@ -37,6 +48,11 @@ fn check_cfg(property: &str, thorough: bool) -> Option<orch::CheckCfg> {
     let scale: u64 = std::env::var("RBXSIM_SCALE").ok().and_then(|s| s.parse().ok()).unwrap_or(100);
     let (engine, level, runs_q, runs_t, chunk) = match property {
         "C13" => ("iosim", "fault_enumeration", 60_000u64, 1_200_000u64, 500u64),
+        "C18" => ("schedsim", "exploration", 40_000u64, 1_000_000u64, 500u64),
+        "C09" => ("domsim", "exploration", 60_000u64, 2_000_000u64, 500u64),
+        "C10" => ("domsim", "exploration", 60_000u64, 2_000_000u64, 500u64),
+        "C11" => ("domsim", "exploration", 60_000u64, 2_000_000u64, 500u64),
+        "C12" => ("domsim+schedsim", "exploration", 60_000u64, 1_500_000u64, 500u64),
         _ => return None,
     };
     let runs = (if thorough { runs_t } else { runs_q }) * scale / 100;
